@@ -103,7 +103,9 @@ fn oracle(inp: &PV, out: &PV) -> T {
     hb.s = vec![];
     hb.t = vec![];
     let third = quotient_goal(&hb, out.at(4), out.at(5).lax());
-    tm::and(vec![first, second, idem, third])
+    // the deprecated alias quotient_witness() is the same operation
+    let alias = quotient_goal(before, out.at(6).at(0), out.at(6).at(1).lax());
+    tm::and(vec![first, second, idem, third, alias])
 }
 
 pub fn shapes_for(tier: Tier) -> Vec<LaxShape> {
